@@ -127,7 +127,12 @@ func runC01Recovery(c *Ctx, a *pqAnchors) {
 				continue
 			}
 			n++
+			// judge the place where the operation joins the batch (the append / slot store), not where it is constructed:
+			// `del := DeleteOperation(k); if put(...) != nil { continue }; batch = append(batch, del)` is fine
 			d := ssa.Instruction(o.Call)
+			if ins := insertionSite(o.Call); ins != nil {
+				d = ins
+			}
 			inLoop := body[d.Block()]
 			okSucc := inLoop && errGuardOn(d.Block(), put, true)
 			okSkip := inLoop && !canReach(put.(ssa.Instruction), d, avoid) && !canReach(d, put.(ssa.Instruction), avoid)
@@ -378,4 +383,37 @@ func runC01Recovery2(c *Ctx, a *pqAnchors) {
 	if nLit == 0 {
 		c.Undecided("settings literals", "-", "none found in non-test code")
 	}
+}
+
+// insertionSite: the instruction that puts the operation value into a batch slice: the append call whose variadic
+// pack holds it, or the store into an indexed slot of a slice. nil if it is passed to Batch directly.
+func insertionSite(op *ssa.Call) ssa.Instruction {
+	if op.Referrers() == nil {
+		return nil
+	}
+	for _, r := range *op.Referrers() {
+		st, ok := r.(*ssa.Store)
+		if !ok || st.Val != ssa.Value(op) {
+			continue
+		}
+		ia, ok := st.Addr.(*ssa.IndexAddr)
+		if !ok {
+			continue
+		}
+		// variadic pack: new [1]T → slice → append(x, pack...)
+		if al, ok := ia.X.(*ssa.Alloc); ok && al.Referrers() != nil {
+			for _, ar := range *al.Referrers() {
+				if sl, ok := ar.(*ssa.Slice); ok && sl.Referrers() != nil {
+					for _, sr := range *sl.Referrers() {
+						if call, ok := sr.(*ssa.Call); ok && builtinName(call) == "append" {
+							return call
+						}
+					}
+				}
+			}
+			continue
+		}
+		return st
+	}
+	return nil
 }
